@@ -7,15 +7,41 @@ pub fn read_message<R: Read>(r: &mut R) -> Result<Message, RepeError> {
     let mut hdr_buf = [0u8; HEADER_SIZE];
     read_exact(r, &mut hdr_buf)?;
     let header = Header::decode(&hdr_buf)?;
-    let mut query = vec![0u8; header.query_length as usize];
+    let mut query = zeroed_payload(header.query_length)?;
     if !query.is_empty() {
         read_exact(r, &mut query)?;
     }
-    let mut body = vec![0u8; header.body_length as usize];
+    let mut body = zeroed_payload(header.body_length)?;
     if !body.is_empty() {
         read_exact(r, &mut body)?;
     }
     Message::new(header, query, body)
+}
+
+/// Zero-filled buffer for a payload length declared by an untrusted header.
+/// A length that cannot be allocated (a corrupt or hostile header can declare
+/// up to 2^64 bytes) is reported as an I/O error instead of aborting the
+/// process, which is what an infallible allocation of that size does.
+pub(crate) fn zeroed_payload(len: u64) -> Result<Vec<u8>, RepeError> {
+    let mut buf = Vec::new();
+    grow_zeroed(&mut buf, len)?;
+    Ok(buf)
+}
+
+/// Resize `buf` to `len` zero-extended bytes, failing instead of aborting when
+/// the allocation is impossible.
+pub(crate) fn grow_zeroed(buf: &mut Vec<u8>, len: u64) -> Result<(), RepeError> {
+    let unallocatable = || {
+        RepeError::Io(std::io::Error::new(
+            std::io::ErrorKind::OutOfMemory,
+            format!("declared frame length {len} cannot be allocated"),
+        ))
+    };
+    let len = usize::try_from(len).map_err(|_| unallocatable())?;
+    buf.try_reserve_exact(len.saturating_sub(buf.len()))
+        .map_err(|_| unallocatable())?;
+    buf.resize(len, 0);
+    Ok(())
 }
 
 /// Read a full REPE message frame into `buf`, reusing its allocation across
@@ -34,8 +60,8 @@ pub fn read_message_into<R: Read>(r: &mut R, buf: &mut Vec<u8>) -> Result<(), Re
     buf.resize(HEADER_SIZE, 0);
     read_exact(r, &mut buf[..HEADER_SIZE])?;
     let header = Header::decode(&buf[..HEADER_SIZE])?;
-    let total = HEADER_SIZE + header.query_length as usize + header.body_length as usize;
-    buf.resize(total, 0);
+    grow_zeroed(buf, header.length)?;
+    let total = buf.len();
     read_exact(r, &mut buf[HEADER_SIZE..total])?;
     Ok(())
 }
